@@ -13,6 +13,13 @@ def plan(ctx):
 
 # directed scenarios (in addition to the TLC-simulated ones): combinations a random sample rarely hits
 DIRECTED = [
+    # the optional log_level of the entry points changes what is printed, not what is returned or recorded
+    ('rsa', 'log-levels', {'s1': 'fermat', 's2': 'healthy', 's3': 'small'},
+     [{'all': True, 'check': 'ALL', 'batch': ['s1', 's2'], 'log_level': 1}, {'all': True, 'check': 'ALL', 'batch': ['s3', 's2'], 'log_level': 2}]),
+    ('ec', 'log-levels', {'s1': 'weakprivate', 's2': 'healthy'},
+     [{'all': True, 'check': 'ALL', 'batch': ['s1', 's2'], 'log_level': 1}]),
+    ('ecdsa', 'log-levels', {'s1': 'msbA', 's2': 'healthyA'},
+     [{'all': True, 'check': 'ALL', 'batch': ['s1', 's2'], 'log_level': 1}, {'all': True, 'check': 'ALL', 'batch': ['s2'], 'log_level': 2}]),
     # the return value accumulates over curves; the issuer-key entry carries the HIGHEST severity of the issuer key's failed checks
     ('ecdsa', 'u2f-then-later-curve', {'s1': 'u2fA', 's2': 'healthy521', 's3': 'healthy384'},
      [{'all': False, 'check': 'CheckCr50U2f', 'batch': ['s1', 's2']}, {'all': False, 'check': 'CheckCr50U2f', 'batch': ['s3', 's1', 's2']}]),
